@@ -113,13 +113,14 @@ def property_files(pid):
 def dep_cone(vfiles):
     """Transitive closure of LCP-internal dependencies of the given .v files (relative to coq/)."""
     seen, todo = set(), list(vfiles)
-    req = re.compile(r"^\s*(?:From\s+LCP\s+)?Require\s+(?:Import\s+|Export\s+)?(.*?)\.\s*$", re.M)
+    # a Require sentence may span lines; it ends at the first '.' followed by white space
+    req = re.compile(r"(?:From\s+\S+\s+)?Require\s+(?:Import\s+|Export\s+)?(.*?)\.(?=\s|$)", re.S)
     while todo:
         f = todo.pop()
         if f in seen or not os.path.exists(os.path.join(COQ, f)):
             continue
         seen.add(f)
-        txt = open(os.path.join(COQ, f)).read()
+        txt = re.sub(r"\(\*.*?\*\)", " ", open(os.path.join(COQ, f)).read(), flags=re.S)
         for m in req.finditer(txt):
             for name in m.group(1).split():
                 if name.startswith("LCP."):
